@@ -20,7 +20,9 @@ RULE = ("(1) Model-based histories of outcomes over 0..4 tests with startTestRun
         "of ExtendedToOriginalDecorator / TestResultDecorator / Tagger, and ExtendedToStreamDecorator with "
         "StreamFailFast), driven through an ExtendedToOriginalDecorator as TestCase.run does; after every call "
         "wasSuccessful()/shouldStop of the outer object and of every underlying result are compared with the "
-        "model. (2) TextTestResult output parsed after stopTestRun. (3) generated suites of real TestCases run by "
+        "model. (2) TextTestResult output parsed after stopTestRun, including errors/failures reported about things "
+        "that are not started tests (as unittest reports setUpClass/setUpModule failures) and runs in which no test "
+        "is started at all. (3) generated suites of real TestCases run by "
         "unittest.TestSuite / TestToolsTestRunner / testtools.run.main (in-process, exit status derived from "
         "SystemExit.code as the OS would; real subprocesses in the thorough tier). Non-trivial: >= 2 tests with a "
         "bad outcome not in first position, or a second startTestRun, or stack depth >= 2; distinct = distinct spec.")
